@@ -4,7 +4,7 @@ import ast
 from .. import regexlang as R
 from ..core import Undecided, node_text
 from ..idioms import is_false, is_name, is_true
-from ..model import NOCONST, call_name, const_value, dotted, names_in, walk_no_nested
+from ..model import NOCONST, call_name, const_value, dotted, is_none, names_in, walk_no_nested
 
 QUOTED_FIELD_LANGUAGE = '"([^"]|"")*"'
 
@@ -259,60 +259,142 @@ def _is_enclosed(e):
 
 
 def rule_cs_accept(cx, rep, port):
-    """a regex match is a quoted field iff it ends the line or is followed by the delimiter; otherwise the field runs to
-    the next delimiter and the warning is set; an unquoted field warns iff it contains a quote"""
+    """a regex match is a quoted field iff it ends the line or is followed by the delimiter; otherwise the field runs to the next
+    delimiter and the warning is set; an unquoted field warns iff it contains a quote.  Decided on the path summaries of
+    extract_next_field (helpers it was split into are inlined): for every path, which text becomes the field, which position
+    and which warning are reported, under which conditions - whatever the layout and the shape of the returned tuple."""
+    from .. import pathsem
     p = cx.port(port)
     fd = p.func('csv_utils', 'extract_next_field')
     params = [a.arg for a in fd.args.args]
     src, dlm = params[0], params[1]
-    ifs = [n for n in walk_no_nested(fd) if isinstance(n, ast.If)]
-    # outer: match is not None ; inner: accept test
-    accept = None
-    for n in ifs:
-        if isinstance(n.test, ast.BoolOp) and isinstance(n.test.op, ast.Or) and len(n.test.values) == 2:
-            accept = n
-    if accept is None:
-        rep.violated('accept test', fd, 'the acceptance test "match ends the line OR is followed by the delimiter" is not present')
+    cidx = params[4] if len(params) > 4 else None
+    ps = pathsem.paths(fd)
+    if ps is None:
+        rep.undecided('accept test', fd, 'extract_next_field is not summarisable as paths')
         return
-    a, b = accept.test.values
-    ends_line = isinstance(a, ast.Compare) and isinstance(a.ops[0], ast.Eq) and isinstance(a.comparators[0], ast.Call) and dotted(a.comparators[0].func) == 'len' and is_name(a.comparators[0].args[0], src)
-    follows = _delim_follow_test(b, src, dlm)
-    if not ends_line or follows is None:
-        rep.undecided('accept test', accept, 'acceptance test shape not recognised: `{}`'.format(node_text(accept.test)))
-    else:
-        rep.holds('accept test', accept, 'accepted iff the match ends the line or the delimiter follows')
-    # accepted arm returns (pos, False) and appends the unescaped group 1
-    rets = [r for r in walk_no_nested(accept) if isinstance(r, ast.Return)]
-    ok_ret = len(rets) == 1 and isinstance(rets[0].value, (ast.Tuple, ast.List)) and len(rets[0].value.elts) == 2 and is_false(rets[0].value.elts[1])
-    rep.decide(ok_ret, 'accepted arm', rets[0] if rets else accept, 'accepted quoted field: no warning', 'an accepted quoted field does not return "no warning"')
-    unesc = [c for c in walk_no_nested(accept) if isinstance(c, ast.Call) and isinstance(c.func, ast.Attribute) and c.func.attr == 'replace' and len(c.args) == 2 and isinstance(c.args[1], ast.Constant) and c.args[1].value == '"']
-    ok_un = False
-    for c in unesc:
-        a0 = c.args[0]
-        if isinstance(a0, ast.Constant) and a0.value == '""' and port == 'py':
-            ok_un = True
-        if isinstance(a0, ast.Call) and dotted(a0.func) == '__regex__' and a0.args[0].value == '""' and 'g' in a0.args[1].value:
-            ok_un = True
-    rep.decide(ok_un, 'unescape', unesc[0] if unesc else accept, 'doubled quotes inside a quoted field are collapsed', 'doubled quotes inside an accepted quoted field are not all collapsed to one')
-    # rejected match sets warning
-    outer = getattr(accept, 'parent', None)
-    sets_warn = False
-    if isinstance(outer, ast.If):
-        idx = outer.body.index(accept)
-        for st in outer.body[idx + 1:]:
-            if isinstance(st, ast.Assign) and isinstance(st.targets[0], ast.Name) and is_true(st.value):
-                sets_warn = True
-    rep.decide(sets_warn, 'rejected match warns', outer if outer is not None else accept, 'a quote-looking field not followed by a delimiter sets the warning', 'a quoted-looking field that is not followed by the delimiter does not set the warning flag')
-    # unquoted: field to next delimiter; warning |= contains quote
-    finds = [c for c in walk_no_nested(fd) if isinstance(c, ast.Call) and isinstance(c.func, ast.Attribute) and c.func.attr in ('find', 'indexOf') and is_name(c.func.value, src) and c.args and is_name(c.args[0], dlm)]
+
+    def is_match_value(e):
+        """value of the regex match applied to the line"""
+        return isinstance(e, ast.Call) and isinstance(e.func, ast.Attribute) and e.func.attr in ('match', 'exec', 'search')
+
+    def from_match(e):
+        """does e read a group of the regex match? -> group number"""
+        for x in ast.walk(e):
+            if isinstance(x, ast.Call) and isinstance(x.func, ast.Attribute) and x.func.attr == 'group' and is_match_value(x.func.value):
+                return const_value(x.args[0]) if x.args else 0
+            if isinstance(x, ast.Subscript) and is_match_value(x.value) and isinstance(const_value(x.slice), int):
+                return const_value(x.slice)
+        return None
+
+    def is_plain_slice(e):
+        if isinstance(e, ast.Subscript) and is_name(e.value, src) and isinstance(e.slice, ast.Slice):
+            return True
+        return isinstance(e, ast.Call) and isinstance(e.func, ast.Attribute) and e.func.attr in ('substring', 'slice') and is_name(e.func.value, src) and len(e.args) == 2
+
+    def match_present(atom):
+        """+1 / -1 when atom says the match exists / does not exist"""
+        if isinstance(atom, ast.Compare) and len(atom.ops) == 1 and is_match_value(atom.left) and is_none(atom.comparators[0]):
+            return -1 if isinstance(atom.ops[0], (ast.Is, ast.Eq)) else 1
+        return 0
+
+    def accept_test(atom):
+        """the disjunction `match ends the line or the delimiter follows`"""
+        if isinstance(atom, ast.BoolOp) and isinstance(atom.op, ast.Or) and len(atom.values) == 2:
+            a, b_ = atom.values
+            ends = isinstance(a, ast.Compare) and len(a.ops) == 1 and isinstance(a.ops[0], ast.Eq) and any(isinstance(x, ast.Call) and dotted(x.func) == 'len' and x.args and is_name(x.args[0], src) for x in (a.left, a.comparators[0]))
+            if ends and _delim_follow_test(b_, src, dlm) is not None:
+                return True
+        return False
+    n_acc = n_rej = n_plain = 0
+    unesc_ok = preserve_ok = False
+    for q in ps:
+        if q.kind != 'return' or q.value is None:
+            continue
+        elts = list(q.value.elts) if isinstance(q.value, (ast.Tuple, ast.List)) else [q.value]
+        # the field: appended to the result list, or returned as a component
+        fields = [c.args[0] for c in q.calls if isinstance(c, ast.Call) and isinstance(c.func, ast.Attribute) and c.func.attr in ('append', 'push') and c.args]
+        is_pos = lambda e: any(isinstance(x, ast.Call) and dotted(x.func) == 'len' and x.args and is_name(x.args[0], dlm) for x in ast.walk(e))  # noqa: E731
+        fields += [e for e in elts if not is_pos(e) and (from_match(e) is not None or is_plain_slice(e))]
+        rest = [e for e in elts if is_pos(e) or not (from_match(e) is not None or is_plain_slice(e))]
+        if len(fields) != 1 or len(rest) != 2:
+            rep.undecided('accept test', q.node, 'a path of extract_next_field yields {} field(s) and {} other component(s)'.format(len(fields), len(rest)))
+            return
+        field = fields[0]
+        pos = [e for e in rest if any(isinstance(x, ast.Call) and dotted(x.func) == 'len' and x.args and is_name(x.args[0], dlm) for x in ast.walk(e))]
+        warn = [e for e in rest if e not in pos]
+        if len(pos) != 1 or len(warn) != 1:
+            continue      # position arithmetic is CS-WIDTH's subject
+        warn = warn[0]
+        ats = pathsem.atoms(q.conds)
+        has_match = None
+        for atom, pol in ats:
+            mp = match_present(atom)
+            if mp:
+                has_match = (mp == 1) == pol
+        accepted = any(pol and accept_test(atom) for atom, pol in ats) or any(pol and accept_test(t_) for t_, pol in q.conds)
+        # a failed disjunction is flattened by atoms(): look at the branch decisions themselves
+        rejected = any((not pol) and accept_test(t_) for t_, pol in q.conds)
+
+        def warn_value(e):
+            """True / False / 'quote' (= field contains a double quote) / None"""
+            if isinstance(e, ast.Constant) and isinstance(e.value, bool):
+                return e.value
+            if isinstance(e, ast.BoolOp) and isinstance(e.op, ast.Or):
+                vals = [warn_value(v) for v in e.values]
+                if True in vals:
+                    return True
+                vals = [v for v in vals if v is not False]
+                return vals[0] if len(vals) == 1 else (False if not vals else None)
+            ct = pathsem._const_truth(e)
+            if ct is not None:
+                return ct
+            mp = match_present(e)
+            if mp:
+                return (mp == 1) == bool(has_match) if has_match is not None else None
+            if isinstance(e, ast.Compare) and len(e.ops) == 1 and isinstance(e.left, ast.Call) and isinstance(e.left.func, ast.Attribute) and e.left.func.attr in ('find', 'indexOf') and e.left.args and const_value(e.left.args[0]) == '"' and _is_minus_one(e.comparators[0]) and isinstance(e.ops[0], ast.NotEq):
+                return 'quote'
+            return None
+        wv = warn_value(warn)
+        grp = from_match(field)
+        if grp is not None:
+            n_acc += 1
+            if not (has_match and accepted):
+                rep.violated('accept test', q.node, 'the text matched by the quoted-field regex becomes the field on a path that has not established "the match ends the line or the delimiter follows": `"a"b,c` would be read as the field `a`')
+                return
+            if wv is not False:
+                rep.violated('accepted arm', q.node, 'an accepted quoted field does not return "no warning" (`{}`)'.format(node_text(warn, 60)))
+                return
+            if grp == 1:
+                un = [c for c in ast.walk(field) if isinstance(c, ast.Call) and isinstance(c.func, ast.Attribute) and c.func.attr == 'replace' and len(c.args) == 2 and const_value(c.args[1]) == '"']
+                for c in un:
+                    a0 = c.args[0]
+                    if (isinstance(a0, ast.Constant) and a0.value == '""' and port == 'py') or (isinstance(a0, ast.Call) and dotted(a0.func) == '__regex__' and a0.args[0].value == '""' and 'g' in a0.args[1].value):
+                        unesc_ok = True
+            if grp == 0:
+                preserve_ok = True
+        else:
+            if has_match and rejected:
+                n_rej += 1
+                if wv is not True:
+                    rep.violated('rejected match warns', q.node, 'a quoted-looking field that is not followed by the delimiter does not set the warning flag (`{}`)'.format(node_text(warn, 60)))
+                    return
+            elif has_match is False:
+                n_plain += 1
+                if wv != 'quote':
+                    rep.violated('unquoted warns on quote', q.node, 'a field taken as unquoted does not warn exactly when it contains a double quote (`{}`)'.format(node_text(warn, 60)))
+                    return
+    if not (n_acc and n_rej and n_plain):
+        rep.undecided('accept test', fd, 'paths found: {} accepted, {} rejected match, {} unquoted - expected all three kinds'.format(n_acc, n_rej, n_plain))
+        return
+    rep.holds('accept test', fd, 'the matched text is the field only where the match ends the line or the delimiter follows ({} path(s))'.format(n_acc))
+    rep.holds('accepted arm', fd, 'accepted quoted field: no warning')
+    rep.holds('rejected match warns', fd, 'a quote-looking field not followed by a delimiter sets the warning ({} path(s))'.format(n_rej))
+    rep.holds('unquoted warns on quote', fd, 'an unquoted field warns iff it contains a double quote ({} path(s))'.format(n_plain))
+    rep.decide(unesc_ok, 'unescape', fd, 'doubled quotes inside a quoted field are collapsed', 'doubled quotes inside an accepted quoted field are not all collapsed to one')
+    rep.decide(preserve_ok, 'preserving mode', fd, 'the preserving mode keeps the whole match', 'the preserving mode does not keep the whole matched text')
+    finds = [c for c in ast.walk(fd) if isinstance(c, ast.Call) and isinstance(c.func, ast.Attribute) and c.func.attr in ('find', 'indexOf') and is_name(c.func.value, src) and c.args and is_name(c.args[0], dlm)]
     rep.decide(len(finds) == 1 and len(finds[0].args) == 2, 'next delimiter', finds[0] if finds else fd, 'unquoted field extends to the next delimiter from the current position', 'the search for the next delimiter does not start at the current position')
-    qtests = [t for t in _find_tests(fd, params) if t[0] == '"' and t[1]]
-    ok_q = False
-    for val, pos, n in qtests:
-        par = getattr(n, 'parent', None)
-        if isinstance(par, ast.BoolOp) and isinstance(par.op, ast.Or):
-            ok_q = True
-    rep.decide(ok_q, 'unquoted warns on quote', qtests[0][2] if qtests else fd, 'warning |= field contains a double quote', 'a field taken as unquoted that contains a double quote does not set the warning (or the earlier warning is overwritten)')
 
 
 def _delim_follow_test(e, src, dlm):
@@ -356,9 +438,18 @@ def rule_cs_width(cx, rep, port):
                 rep.holds(key, e, 'delimiter-length comparison')
         # position arithmetic: returns of (X + k, ...) where X is a position inside src
         if fname == 'extract_next_field':
-            for r in walk_no_nested(fd):
-                if isinstance(r, ast.Return) and isinstance(r.value, (ast.Tuple, ast.List)) and r.value.elts:
-                    pos = r.value.elts[0]
+            from .. import pathsem
+            rps = pathsem.paths(fd) or []
+            seen_ret = set()
+            for q in rps:
+                r = q.node
+                if q.kind == 'return' and isinstance(q.value, (ast.Tuple, ast.List)) and q.value.elts and id(r) not in seen_ret:
+                    seen_ret.add(id(r))
+                    # the position component: the one computed from a position in the line (locals substituted along the path)
+                    cands = [e_ for e_ in q.value.elts if isinstance(e_, ast.BinOp) and isinstance(e_.op, ast.Add)]
+                    if not cands:
+                        continue
+                    pos = cands[0]
                     n += 1
                     key = '{}: `{}`'.format(fname, node_text(r))
                     step = _step_of(pos, dlm)
